@@ -32,16 +32,20 @@ def esc_std(v, q):
 def spellings(v):
     """-> list of (style, source text of a PRQL expression denoting v)"""
     out = [("dq_escaped", esc_std(v, '"')), ("sq_escaped", esc_std(v, "'"))]
-    if "\\" not in v and "\n" not in v and "\r" not in v:
+    # plain spellings: the characters stand for themselves, including raw line breaks and
+    # carriage returns (the lexer accepts them inside quoted strings); raw strings end at a line break
+    if "\\" not in v:
         if '"' not in v:
             out.append(("dq_plain", '"' + v + '"'))
         if "'" not in v:
             out.append(("sq_plain", "'" + v + "'"))
-    if '"""' not in v and not v.endswith('"') and not v.startswith('"') and "\\" not in v and "\r" not in v and v != "":
+    if '"""' not in v and not v.endswith('"') and not v.startswith('"') and "\\" not in v and v != "":
         out.append(("triple_dq", '"""' + v + '"""'))
     if '"' not in v and "\n" not in v and "\r" not in v:
         out.append(("raw_dq", 'r"' + v + '"'))
-    if "{" not in v and "}" not in v and '"' not in v and "\\" not in v and "\n" not in v and "\r" not in v:
+    if "'" not in v and '"' in v and "\n" not in v and "\r" not in v:
+        out.append(("raw_sq", "r'" + v + "'"))
+    if "{" not in v and "}" not in v and '"' not in v and "\\" not in v:
         out.append(("fstring_fragment", 'f"' + v + '"'))
     out.append(("all_unicode_escapes", '"' + "".join("\\u{%x}" % ord(ch) for ch in v) + '"'))
     return out
@@ -213,6 +217,16 @@ def gen_strings(rng, tier):
     if tier == "quick":
         for _ in range(500):
             out.append("".join(rng.choice(CORE_ALPHABET) for _ in range(3)))
+    # digraphs: every ordered pair of the characters that lexers and SQL printers treat specially,
+    # alone, embedded and at either end (pairs such as CR LF, backslash quote, quote quote)
+    special = ["'", "\"", "\\", "\n", "\r", "\t", "{", "}", "-", "#"] if tier == "quick" else HOSTILE
+    for x in special:
+        for y in special:
+            out.append(x + y)
+            out.append("a" + x + y + "b")
+            if tier != "quick":
+                out.append(x + y + "b")
+                out.append("a" + x + y)
     n_random = 600 if tier == "quick" else 20000
     for _ in range(n_random):
         out.append("".join(rng.choice(HOSTILE) for _ in range(rng.randint(1, 8))))
